@@ -192,6 +192,17 @@ class PE(U.PathEval):
 
     def call(self, n, c, args, env):
         name = H.callee_name(n)
+        path = c.get("inst") or c.get("path") or ""
+        if c.get("r") != "local":
+            if name in ("unwrap", "expect", "unwrap_unchecked") and args and args[0][0] == "v" and args[0][1] in ("Some", "Ok") and args[0][2]:
+                return args[0][2][0]                       # payload of a value known to be Some/Ok
+            if name == "from" and len(args) == 1 and n.get("k") == "call":
+                return args[0]                             # `T::from(x)` is `x.into()`: a conversion of the same value
+            if name == "not" and len(args) == 1 and path.endswith("__private::not"):
+                v = args[0]                                # anyhow::ensure!(c, ..) expands to `if not(c) { return Err(..) }`
+                if v[0] == "b":
+                    return ("b", not v[1])
+                return v[3][0] if U.kind_of(v) == "not" else U.mk_not(v)
         if name in ("unwrap", "expect", "unwrap_unchecked") and args and T.is_sym(args[0]) and c.get("r") != "local":
             # `if e.is_none() { bail!(..) } .. e.unwrap()`: the payload of a term that the guards on this path prove to be Some/Ok
             for g in self.guards():
@@ -395,6 +406,18 @@ def r05_1(c, R, spec, ctx):
 
 
 # ------------------------------------------------------------------------------------ R05.2 / R05.3
+def pairs_of(seq, window):
+    """(node path term, abstract element) of the sequence of consecutive pairs of a path P: `P.windows(2)` with the element x (x[0], x[1]),
+    or `P.iter().zip(P.iter().skip(1))` with the element (x[0], x[1]) -- the same pairs in the same order."""
+    if U.is_call(seq, "windows") and U.call_args(seq)[1:] == [("i", window)]:
+        return U.peel_term(U.call_args(seq)[0], *U.ITER_ADAPTERS), S("x")
+    if window == 2 and U.is_call(seq, "zip") and len(U.call_args(seq)) == 2:
+        a, b = [U.peel_term(t, *U.ITER_ADAPTERS) for t in U.call_args(seq)]
+        if U.is_call(b, "skip") and U.call_args(b)[1:] == [("i", 1)] and U.peel_term(U.call_args(b)[0], *U.ITER_ADAPTERS) == a:
+            return a, ("t", [U.mk_idx(S("x"), ("i", 0)), U.mk_idx(S("x"), ("i", 1))])
+    return None
+
+
 def r05_2_3(c, R, spec, ctx):
     r2, r3 = "R05.2", "R05.3"
     R.rule(r2, "inner-class names: the stored root mapping is tiny_v2::read_file(<root path>)?.contract_inner_class_names(ns)?; every Ok "
@@ -449,10 +472,12 @@ def r05_2_3(c, R, spec, ctx):
         return
     seq, init = fd["src"], fd["init"]
     R.inst(r3, "fold-starts-from-root-mapping", T.show(init) == "$self.root_mapping", sp=fn["sp"], got=T.show(init), expect="self.root_mapping.clone()")
-    ok_w = U.is_call(seq, "windows") and U.call_args(seq)[1:] == [("i", spec["window"])]
-    R.inst(r3, "consecutive-pairs", ok_w, sp=fn["sp"], got=showv(seq)[:120], expect="<node path>.windows(2)")
+    pairs = pairs_of(seq, spec["window"])
+    ok_w = pairs is not None
+    R.inst(r3, "consecutive-pairs", ok_w, sp=fn["sp"], got=showv(seq)[:120], expect="<node path>.windows(2) (or <node path>.iter().zip(<node path>.iter().skip(1)))")
+    elem = pairs[1] if ok_w else S("x")
     if ok_w:
-        src = U.call_args(seq)[0]
+        src = pairs[0]
         ok_p = U.kind_of(src) == "fld" and src[3][1] == "1" and U.is_call(src[3][0], "astar") and tried(src[3][0])
         R.inst(r3, "pairs-over-astar-node-path", ok_p, sp=fn["sp"], got=showv(src)[:120], expect="astar(..).ok_or_else(..)?.1")
         if ok_p:
@@ -464,7 +489,7 @@ def r05_2_3(c, R, spec, ctx):
                    U.canon_guard(goal, True) == ("eq", "$n", "$tv.node_index"), sp=fn["sp"], got=showv(goal), expect="|n| n == target_version.node_index")
             ctx["astar_tried"] = True
     # one step of the fold
-    res, ev2 = fd["step"](S("acc"), S("x"))
+    res, ev2 = fd["step"](S("acc"), elem)
     ok_apply = U.is_call(res, "apply_to") and path_of(res).endswith("apply_to") and len(U.call_args(res)) == 3
     R.inst(r2, "step:result-is-apply_to", ok_apply, sp=fn["sp"], got=showv(res)[:200], expect="diff.apply_to(<accumulator>, ns) (error context allowed)")
     if ok_apply:
@@ -563,7 +588,8 @@ def r05_4(c, R, spec, ctx):
     R.inst(rid, "walker:starts-at-root", ok_start, sp=wnode["sp"], got=showv(walkers), expect="[(Vec::new(), root)]")
     inode, ienv = inner[0]
     it = PE().run(inode["iter"], dict(ienv))
-    itv = it[1] if it[0] == "ok" else None
+    # `for v in g.neighbors_directed(..)` == `let succ: Vec<_> = g.neighbors_directed(..).collect(); for v in succ` (element-preserving adapters)
+    itv = U.peel_term(it[1], *U.ITER_ADAPTERS) if it[0] == "ok" else None
     ok_dir = U.is_call(itv, "neighbors_directed") and len(U.call_args(itv)) == 3 and U.call_args(itv)[1] == S("head") \
         and U.call_args(itv)[2] == T.V(spec["walk_direction"]) and same(U.call_args(itv)[0], st[2].get("graph"))
     R.inst(rid, "walker:follows-outgoing-edges-of-head", ok_dir, sp=inode["sp"], got=showv(itv),
